@@ -366,9 +366,7 @@ impl Run {
             ("violations_detail", J::Arr(vio_json)),
         ];
         if let Ok(l) = std::env::var("VERIF_C05_DBG_LINE") {
-            if self.property == "C05" {
-                cov.push(("debug_assertions_build_run", J::s(l)));
-            }
+            cov.push(("debug_assertions_build_run", J::s(l)));
         }
         for (k, v) in self.extra.drain(..) {
             cov.push((Box::leak(k.into_boxed_str()), v));
